@@ -73,6 +73,21 @@ func paramFor(att *expr.AttributeExpr, name, in string, required bool, rand *exp
 		param.Style = "deepObject"
 		param.Explode = &explode
 	}
+	bytesAsText(param.Schema, att)
 	initExamples(param, att, rand)
 	return param
+}
+
+// bytesAsText fixes the schema of a Bytes attribute carried by a parameter or a
+// header: the generated code reads and writes the bytes as they are, not their
+// base64 encoding, the length validations thus apply to the text itself.
+func bytesAsText(s *openapi.Schema, att *expr.AttributeExpr) {
+	if s == nil || att.Type != expr.Bytes || att.Validation == nil {
+		return
+	}
+	if att.Validation.MinLength == nil && att.Validation.MaxLength == nil {
+		return
+	}
+	s.Pattern = ""
+	s.MinLength, s.MaxLength = att.Validation.MinLength, att.Validation.MaxLength
 }
